@@ -326,6 +326,7 @@ class JavaRenderer:
         elif k == "return":
             e.tok("return")
             if s[1] is not None:
+                self.events.append({"e": "returnExpr", "text": expr_text(s[1])})
                 self.expr(s[1], True, var_text="return")
             e.tok(";", glue=True)
         elif k == "filler":
@@ -386,6 +387,12 @@ class JavaRenderer:
         else:
             head = {"e": "enterMethod", "name": m["name"], "ret": gtext(m["ret"]), "annos": amodel, "params": params, "emptyParams": not params,
                     "startLine": nl_, "nameCol": nc}
+        # what the identifier listener reads for this declaration: ctx.GetStart(), the first modifier if it is an annotation,
+        # the non-annotation modifiers (class methods only)
+        annos_ = m.get("annos", [])
+        head["ident"] = {"startLine": (nl_ if m["kind"] == "ctor" else fn["startLine"]), "startCol": (nc if m["kind"] == "ctor" else startcol),
+                         "firstAnno": (anno_model(annos_[0]) if annos_ else None),
+                         "mods": (list(m.get("mods", [])) if (m["kind"] == "method" and not is_iface) else [])}
         self.events.append(head)
         e.tok("(", glue=True)
         for i, p in enumerate(m["params"]):
@@ -526,5 +533,39 @@ def expr_text(x):
     raise ValueError(x)
 
 
+def ident_events(events):
+    """the events the identifier listener (java_identifier_listener.go) receives for the same file, in walker order"""
+    out = []
+    for ev in events:
+        k = ev["e"]
+        if k in ("pkg", "imp", "anno"):
+            out.append(ev)
+        elif k == "enterClass":
+            out.append({"e": "enterClass", "name": ev["name"], "ext": ev["ext"], "impls": ev["impls"]})
+        elif k == "enterInterface":
+            out.append({"e": "enterInterface", "name": ev["name"]})
+        elif k in ("enterMethod", "interfaceMethod", "enterCtor"):
+            i = ev["ident"]
+            out.append({"e": {"enterMethod": "enterMethod", "interfaceMethod": "interfaceMethod", "enterCtor": "enterCtor"}[k], "name": ev["name"],
+                        "ret": ev.get("ret", ""), "firstAnno": i["firstAnno"], "mods": i["mods"],
+                        "startLine": i["startLine"], "startCol": i["startCol"], "stopLine": ev["stopLine"], "stopCol": ev["stopCol"],
+                        "hasBody": True})
+            if k == "interfaceMethod":
+                out.append({"e": "exitInterfaceMethod"})       # an interface method of a conventional unit has no body: exit follows at once
+        elif k == "exitMethod":
+            out.append({"e": "exitMethod"})
+        elif k == "exitCtor":
+            out.append({"e": "exitCtor"})
+        elif k == "returnExpr":
+            out.append(ev)
+        elif k == "exitBody":
+            out.append({"e": "exitType"})
+    return out
+
+
 def render_unit(u, rng=None, wild=0.0, comments=None):
-    return JavaRenderer(rng, wild, comments).unit(u)
+    text, facts = JavaRenderer(rng, wild, comments).unit(u)
+    if isinstance(facts, dict) and "events" in facts:
+        facts["ievents"] = ident_events(facts["events"])
+        facts["events"] = [ev for ev in facts["events"] if ev["e"] != "returnExpr"]      # not a callback of the full listener
+    return text, facts
